@@ -27,6 +27,11 @@ Items (all paths relative to item['scope']):
     copy        copy_file(out, 'string')
     obj         object_file(name, file='string', includes=[vars / strings])
     link        executable/static_library(name, files=[obj vars + prebuilt], libs=[prebuilt])
+    tsrc        a source of a transpiled language (lex .l, Qt .qrc): handed as a plain
+                string to object_file(file=) / executable(files=[..]) / static_library(
+                files=[..]) (bfg9000 forwards it to generated_source itself), or, as a
+                control, through generated_source() / source_file() / auto_file()
+                explicitly (the latter two with and without dist=False)
 
 `render(spec, ext)` gives the complete source tree; the dist expectations are
 computed by `dist_model` with vf/ref/c18ref.py; the extra build steps by
@@ -291,6 +296,21 @@ def gen_ext(rng, spec):
                               'name': 'xe%d' % j, 'objs': [i],
                               'prebuilt': [f['var'] for f in fvars if f['fn'] in LINKABLE_OBJ][:2],
                               'libs': [f['var'] for f in fvars if f['fn'] in LINKABLE_LIB][:2]})
+        # ---- transpiled sources (LEX / RCC are stubs in the environment)
+        for n in range(rng.choice([0, 1, 1, 2]) if main else rng.choice([0, 0, 1])):
+            i = sid()
+            tex = rng.choice(['.l', '.l', '.qrc'])
+            p = 'xf/t%d%s' % (i, tex)
+            ext['files'][sc + p] = '%%\n%%\n' if tex == '.l' else '<RCC/>\n'
+            how = rng.choice(['string', 'string', 'string', 'generated_source', 'source_file',
+                              'auto_file'])
+            it = {'k': 'tsrc', 'scope': sc, 'id': i, 'src': p, 'how': how, 'dist': True,
+                  'into': 'object_file', 'name': 'xt%d' % i}
+            if how == 'string':
+                it['into'] = rng.choice(['object_file', 'executable', 'static_library'])
+            elif how in ('source_file', 'auto_file') and rng.random() < 0.3:
+                it['dist'] = False
+            items.append(it)
         ext['items'] += items
     # ---- junk nobody mentions
     for p in rng.sample(['.gitignore', 'NOTES.junk', 'xf/unref.c', 'xjunk/todo.txt',
@@ -442,6 +462,18 @@ def render_item(it, stub='vrec'):
         incs = list(it['inc_vars']) + ([repr(it['inc_str'])] if it['inc_str'] else [])
         inc = ', includes=[%s]' % ', '.join(incs) if incs else ''
         L.append('xn%d = object_file(%r, file=%r%s)' % (it['id'], it['name'], it['src_str'], inc))
+    elif k == 'tsrc':
+        how = it['how']
+        if how == 'string':
+            src = repr(it['src'])
+        elif how == 'generated_source':
+            src = 'generated_source(%r)' % it['src']
+        else:
+            src = '%s(%r%s)' % (how, it['src'], '' if it['dist'] else ', dist=False')
+        if it['into'] == 'object_file':
+            L.append('xn%d = object_file(%r, file=%s)' % (it['id'], it['name'], src))
+        else:
+            L.append('xn%d = %s(%r, files=[%s])' % (it['id'], it['into'], it['name'], src))
     elif k == 'link':
         files = ['xn%d' % o for o in it['objs']] + list(it['prebuilt'])
         libs = ', libs=[%s]' % ', '.join(it['libs']) if it['libs'] else ''
@@ -476,7 +508,7 @@ def render(spec, ext, stub='vrec'):
         outs = []
         for it in its:
             L += render_item(it, stub)
-            if it['k'] in ('step', 'copy', 'obj', 'link'):
+            if it['k'] in ('step', 'copy', 'obj', 'link', 'tsrc'):
                 outs.append('xn%d' % it['id'])
         L.append('c18outs = [%s]' % ', '.join(outs))
         for n, ch in enumerate(children(ext, sc)):
@@ -580,6 +612,11 @@ def dist_model(spec, ext, tree):
                 m.require(sc + p, 'string:extra_deps')
         elif k == 'copy':
             m.require(sc + it['src_str'], 'string:copy_file')
+        elif k == 'tsrc':
+            if it['how'] == 'string':
+                m.require(sc + it['src'], 'string:transpiled-source')
+            else:
+                m.add(sc + it['src'], it['how'] + ':transpiled', it['dist'])
         elif k == 'obj':
             m.require(sc + it['src_str'], 'string:object_file')
             if it['inc_str']:
@@ -613,6 +650,27 @@ class ExtModel(dag.Model):
                 objs[it['id']] = o
                 self._step('obj%d' % it['id'], it['id'], 'compile',
                            ['S:' + sc + it['src_str']], [o])
+            elif k == 'tsrc':
+                stem = posixpath.splitext(it['src'])[0]
+                gen_ext, obj_ext = [(e, o) for t, e, o in (('.l', '.yy.c', '.yy.o'),
+                                                           ('.qrc', '.cpp', '.o'))
+                                    if it['src'].endswith(t)][0]
+                if it['into'] == 'object_file':
+                    gen = 'B:' + sc + stem + gen_ext
+                    outs = ['B:' + sc + it['name'] + '.o']
+                    final = None
+                else:
+                    d = it['name'] if it['into'] == 'executable' else 'lib' + it['name']
+                    gen = 'B:' + sc + d + '.int/' + stem + gen_ext
+                    outs = ['B:' + sc + d + '.int/' + stem + obj_ext]
+                    final = 'B:' + sc + (it['name'] if it['into'] == 'executable'
+                                         else 'lib' + it['name'] + '.a')
+                self._step('transpile%d' % it['id'], it['id'], 'transpile',
+                           ['S:' + sc + it['src']], [gen])
+                self._step('tobj%d' % it['id'], it['id'], 'compile', [gen], outs)
+                if final:
+                    self._step('tlink%d' % it['id'], it['id'],
+                               'link' if it['into'] == 'executable' else 'ar', outs, [final])
             elif k == 'link':
                 if it['fn'] == 'executable':
                     out = sc + it['name']
